@@ -54,9 +54,9 @@ def zygote(hash_seed):
     return p
 
 
-def ask(hash_seed, history):
+def ask(hash_seed, history, files=None, versions=None):
     p = zygote(hash_seed)
-    p.stdin.write(json.dumps({"history": history, "timeout": 120}) + "\n")
+    p.stdin.write(json.dumps({"history": history, "timeout": 120, "files": files or {}, "file_versions": versions or []}) + "\n")
     p.stdin.flush()
     line = p.stdout.readline()
     if not line:
@@ -77,6 +77,18 @@ REJECT = {
     "address": ["L7 LDX L7/0\n", " ORG $FFFF\n NOP \n NOP \n"],
 }
 PHASES = sorted(REJECT)
+
+# include files shared by all programs of a history (the zygote writes them into a scratch working directory)
+INCLUDE_FILES = {
+    "notes.asm": "; nothing but comments\n\n; in this file\n",
+    "defs.asm": "DV1 EQU $12\nDV2 EQU $3456\n",
+    "code.asm": " NOP \n CLRA \n LDA #DV1\n",
+    "plain.asm": " INCB \n RTS \n",
+    "broken.asm": " FOO 1\n",
+    "nest.asm": " INCLUDE plain.asm\n INCLUDE notes.asm\n",
+    "loop.asm": " INCLUDE loop.asm\n",
+}
+INCLUDE_CHOICES = ["notes.asm", "plain.asm", "plain.asm", "nest.asm", "defs.asm", "gone.asm", "broken.asm", "loop.asm", "code.asm"]
 
 
 class C17(object):
@@ -152,6 +164,26 @@ class C17(object):
             relation = "same"
         else:
             p_lines = G.render(G.ProgGen(rng.fork("p"), n=rng.randint(1, 15), features=feats).program())
+        files = {}
+        if rng.chance(0.3):
+            # INCLUDE lines sprinkled over the history: the same files are seen by every program, warm or fresh
+            files = dict(INCLUDE_FILES)
+            for prog in history + [p_lines]:
+                if rng.chance(0.6):
+                    for _ in range(rng.randint(1, 2)):
+                        prog.insert(rng.randint(0, len(prog)), " INCLUDE %s\n" % rng.choice(INCLUDE_CHOICES))
+        versions = None
+        if files and history and rng.chance(0.35):
+            # the user fixes (or breaks, or removes) an included file between two assemblies in the same process
+            good = " INCA \n"
+            bad = rng.choice([" FOO 1\n", None, " INCLUDE flip.asm\n", " INCLUDE gone.asm\n"])
+            seq = [bad if rng.chance(0.6) else good for _ in history] + [good]
+            versions = [{"flip.asm": v} for v in seq]
+            files["flip.asm"] = good
+            for prog in history + [p_lines]:
+                if rng.chance(0.8):
+                    prog.insert(rng.randint(0, len(prog)), " INCLUDE %s\n" % rng.choice(["flip.asm", "flip.asm", "nestflip.asm"]))
+            files["nestflip.asm"] = " NOP \n INCLUDE flip.asm\n"
         deco = rng.weighted([(None, 80), ("bom", 5), ("crlf", 5), ("trailing_ws", 4), ("blank_lines", 3), ("tabs", 3)])
         if deco == "bom":
             p_lines = ["\ufeff" + p_lines[0]] + p_lines[1:] if p_lines else p_lines
@@ -165,12 +197,19 @@ class C17(object):
             p_lines = [l.replace(" ", "\t", 1) for l in p_lines]
         history.append(p_lines)
         history.append(list(p_lines))
-        return {"hash_seed": hs[slot], "slot": slot, "history": history, "shapes": shapes, "relation": relation, "deco": deco}
+        return {"hash_seed": hs[slot], "slot": slot, "history": history, "shapes": shapes, "relation": relation, "deco": deco, "files": files,
+                "file_versions": (versions + [versions[-1]]) if versions else None, "no_ddmin": bool(versions)}
 
     def run(self, case):
         res = Result()
         hist = case["history"]
-        warm = ask(case["hash_seed"], hist)
+        files = case.get("files") or {}
+        versions = case.get("file_versions") or []
+        warm = ask(case["hash_seed"], hist, files, versions)
+        if versions:
+            res.stats["fault:included_file_edited_between_assemblies"] += 1
+        if files:
+            res.stats["fault:include_files_in_history"] += 1
         res.stats["fault:hash_seed"] += 1 if case["hash_seed"] != 0 else 0
         res.stats["fault:prior_assembly"] += max(0, len(hist) - 1)
         res.stats["fault:fresh_vs_warm"] += 1
@@ -178,9 +217,16 @@ class C17(object):
         cache = {}
         outcomes = []
         for idx, prog in enumerate(hist):
-            key = "".join(prog)
+            cur = dict(files)
+            for v in versions[:idx + 1]:
+                for name, text in (v or {}).items():
+                    if text is None:
+                        cur.pop(name, None)
+                    else:
+                        cur[name] = text
+            key = "".join(prog) + "\0" + json.dumps(cur, sort_keys=True)
             if key not in cache:
-                cache[key] = ask(0, [prog])[0]
+                cache[key] = ask(0, [prog], cur)[0]
                 res.stats["zygote_requests"] += 1
             fresh = cache[key]
             w = warm[idx]
@@ -198,12 +244,14 @@ class C17(object):
         for ph in case.get("shapes", []):
             res.stats["prior:" + ph] += 1
         res.states.add("|".join([str(len(hist) - 2), ",".join(case.get("shapes", [])), str(case.get("slot")), outcomes[-1],
-                                 case.get("relation", ""), str(case.get("deco"))]))
+                                 case.get("relation", ""), str(case.get("deco")), "inc" if files else "-"]))
         res.stats["outcome_of_P:" + outcomes[-1].split(":")[0]] += 1
         res.digest = hashlib.sha256(json.dumps([warm, sorted(cache.items())], sort_keys=True).encode()).hexdigest()
         return res
 
     def simplify(self, case):
+        if case.get("file_versions"):
+            return          # the history and its file versions are index-aligned: only whole programs are dropped below
         if case["hash_seed"] != 0:
             yield dict(case, hash_seed=0, slot=0)
         for i, prog in enumerate(case["history"]):
